@@ -56,7 +56,7 @@ def case_gram_only(sp, agg, m):
 
 def case_zero_columns(sp, agg, m):
     """appending all-zero columns leaves the Gramian unchanged; the weights must therefore not depend on the number of columns either:
-    the same Gram-only matrix is presented with n = m and with n = m + 1000 columns"""
+    the same Gram-only matrix is presented with n = m and with n = m + 200000 columns"""
     set_kernels(sort_mode="axiom")
     J, G, extra = C11.domain(sp, agg, m, n=m)
     C11.assume_params(agg, m)
@@ -66,13 +66,18 @@ def case_zero_columns(sp, agg, m):
     firsts = [e for e in torch.EVENTS if e[0] == "kernel" and e[1] in ("solve_qp", "cvxpy_simplex")]
     torch.KERNELS["qp_candidates"] = lambda: [list(e[3]._flat()) for e in firsts if e[1] == "solve_qp"]
     torch.KERNELS["cvx_candidates"] = lambda: [(list(e[3]), e[4]) for e in firsts if e[1] == "cvxpy_simplex"]
-    J2 = torch.GramOnly(J._G, m + 1000, dist=J._dist)
-    torch.manual_seed(0)
-    w2 = A(J2)._w._flat()
+    # far more columns than any block size a column-wise implementation would use (2**16 ...): the Gramian, hence the weights, are the same
+    n2 = m + 200000
+    J2 = torch.GramOnly(J._G, n2, dist=J._dist)
     def cex(model):
-        d = dict(kind="zero_columns", agg=agg, m=m, n1=m, n2=m + 1000, params=C11.params_cex(model, agg, m))
+        d = dict(kind="zero_columns", agg=agg, m=m, n1=m, n2=n2, params=C11.params_cex(model, agg, m))
         d.update(cex_values(model, G=G) if G is not None else cex_values(model, dist=extra))
         return d
+    torch.manual_seed(0)
+    try:
+        w2 = A(J2)._w._flat()
+    except torch.GramOnlyRead as e:
+        return [Ob(f"weights_independent_of_the_number_of_columns[{agg}]", False, lambda model, e=e: dict(cex(model), what=str(e)))]
     if any(isinstance(x, Sp) for x in w1 + w2):
         return [Ob(f"finite[{agg}]", False, cex)]
     if G is None:
